@@ -79,12 +79,24 @@ func c16RunCase(r *Run, l *Local, e *c16Env, q Req) {
 		cfg := e.spec.Config()
 		r.Violate(key, "C16-invariants", fmt.Sprintf("%s | request %s | response %s | %s", msg, reqString(q), o, cfgString(&cfg)), c16Case{e.spec, trimReq(q)})
 	}
-	// canary taint: nowhere in the response
+	// canary taint: nowhere in the response - unless the request itself supplied it (a hostile client may guess a
+	// configured name; echoing the client's own words discloses nothing; false alarm of the seed sweep, DESIGN.md section 9)
+	var reqText strings.Builder
+	for _, vs := range q.Header {
+		for _, v := range vs {
+			if len(v) < 4096 {
+				reqText.WriteString(asciiLower(v))
+				reqText.WriteByte('\n')
+			}
+		}
+	}
+	reqText.WriteString(asciiLower(q.Method))
+	supplied := reqText.String()
 	for k, vs := range o.Headers {
 		for _, v := range vs {
 			lv := asciiLower(v)
 			for _, c := range canaries {
-				if strings.Contains(lv, c) {
+				if strings.Contains(lv, c) && !strings.Contains(supplied, c) {
 					report("canary-leak", fmt.Sprintf("response header %s: %q discloses the configured value %q, which the request did not supply", k, truncate(v, 200), c))
 				}
 			}
